@@ -51,7 +51,7 @@ def check(model, rep, tier):
            'and bindings of the enclosing function and its parents', floor=22)
   rep.rule('HYG-NAMER', 'candidate rejected while in namespace / reserved / '
            'generated; result recorded', floor=4)
-  rep.rule('HYG-BIND', 'parameters always recorded as bound', floor=1)
+  rep.rule('HYG-BIND', 'parameters bound in, and scope names reserved against, the function\'s own scope', floor=5)
   rep.rule('HYG-BINDER', 'no literal binder next to user identifiers', floor=40)
   rep.rule('HYG-FREE', 'no capturable literal free name', floor=40)
 
@@ -71,11 +71,14 @@ def check(model, rep, tier):
         site = '%s:new_symbol(%s)' % (fi.site, root)
         res = c.args[1]
         exprs = _reserved_atoms(fi, res, c)
-        ok = bool(exprs) and all(e.endswith('.referenced') for e in exprs)
+        # lower bound: the union must contain `referenced` of a scope of the
+        # node; further operands only reserve more
+        refs = [e for e in exprs if e.endswith('.referenced')]
+        ok = bool(refs)
         scopes_ok = True
         if ok:
           # each scope must come from an annotation of the handler's node
-          for e in exprs:
+          for e in refs:
             sv = e[:-len('.referenced')]
             ds = tpl.rdefs(fi.node).reaching(c, sv) if sv.isidentifier() else None
             if not ds or any(isinstance(d, tuple) or 'anno.getanno(' not in
@@ -205,24 +208,63 @@ def check(model, rep, tier):
   va = model.func(ACT, 'ActivityAnalyzer.visit_arg')
   import sa.pycfg as pycfg
   g = pycfg.CFG(va.node)
-  adds = {i: 1 for i in range(len(g.nodes)) if any(
-      core.norm(c.func) == 'self.scope.bound.add' for c in pycfg.calls_at(g, i))}
-  # paths that skip the add must be guarded only by "no QN annotation"
+  add_nodes = [i for i in range(len(g.nodes)) if any(
+      core.norm(c.func) == 'self.scope.bound.add' for c in pycfg.calls_at(g, i))]
+  adds = {i: 1 for i in add_nodes}
   rets_ = g.nodes_where(lambda k, a: k == 'return')
   bad = []
+  allowed = {('not anno.hasanno(node, anno.Basic.QN)', 'T'),
+             ('self._track_annotations_only', 'T')}
   for ri in rets_:
-    # does some path reach this return without an add?
     rng = g.count_range(adds, ends={ri}, skip_labels=())
     if rng and rng[0] == 0:
       mand = [(core.norm(g.nodes[t][1]), l) for t, l in g.mandatory_edges(ri)]
-      if mand != [('not anno.hasanno(node, anno.Basic.QN)', 'T')]:
+      if not set(mand) & allowed:
         bad.append(mand)
-  rep.check(not bad, 'HYG-BIND', '%s:always-bound' % va.site,
-            'a parameter is not recorded as bound on some path: the defining '
-            'pass (annotations only) must record it too, since generated names '
-            'for lambdas are reserved against the defining scope',
-            {'paths_without_binding': bad}, line=va.node.lineno,
-            witness='a lambda whose parameter is called lscope')
+  rep.check(not bad and bool(add_nodes), 'HYG-BIND', '%s:always-bound' % va.site,
+            'a parameter is not recorded as bound in the function\'s own scope '
+            'on some path of the declaration pass', {'paths_without_binding': bad},
+            line=va.node.lineno, witness='a lambda whose parameter is called lscope')
+  # names bound *inside* a function (the scope object name) must be reserved
+  # against a scope of that function, which holds its parameters
+  fm = model.module('malt/converters/functions.py')
+  rep.touch(fm.rel)
+  for hname in ('visit_Lambda', 'visit_FunctionDef'):
+    h = model.cls(fm.rel, 'FunctionTransformer').methods[hname]
+    calls = [c for c in ast.walk(h.node) if isinstance(c, ast.Call) and isinstance(
+        c.func, ast.Attribute) and c.func.attr == 'new_symbol']
+    ok = len(calls) == 1
+    keytxt = None
+    lam_ok = False
+    if ok:
+      leaves = _union_leaves(tpl.expand(h, calls[0].args[1], calls[0]))
+      keytxt = [core.norm(l) for l in leaves]
+      ok = any(t.endswith('.referenced') and ('NodeAnno.BODY_SCOPE' in t or
+                                              'NodeAnno.ARGS_AND_BODY_SCOPE' in t)
+               for t in keytxt)
+      # nested lambdas share this function's scope object: their parameter
+      # names must be reserved as well
+      for l in leaves:
+        if isinstance(l, ast.Call) and core.dotted(l.func):
+          r = model.resolve(fm, l.func)
+          if r and r[0] == 'func':
+            src = core.norm(r[1].node)
+            lam_ok = 'ast.Lambda' in src and all(k in src for k in (
+                'posonlyargs', '.args', 'kwonlyargs', 'vararg', 'kwarg')) and \
+                '.arg' in src
+    rep.check(lam_ok, 'HYG-BIND', '%s:nested-lambda-parameters-reserved' % h.site,
+              'lambdas nested in the function get no scope object of their own: '
+              'generated calls in their bodies name the enclosing function\'s '
+              'scope object, so that name must be kept apart from the nested '
+              'lambdas\' parameter names', {'reserved': keytxt}, line=h.node.lineno,
+              witness='key = lambda fscope: abs(fscope) inside a converted function')
+    rep.check(ok, 'HYG-BIND', '%s:reserved-against-own-scope' % h.site,
+              'the generated scope-object name is bound inside the function '
+              '(with ... as / lambda parameter): it must be reserved against a '
+              'scope of that function, which contains the function\'s own '
+              'parameters, not against the defining statement\'s scope',
+              {'reserved': keytxt}, line=h.node.lineno,
+              witness='lambda lscope: lscope * 2 converted as its own entity')
 
   # ---------------------------------------------------------------- templates
   sites = [s for s in tpl.find_sites(model) if s.fi.module.rel != 'malt/pyct/templates.py']
@@ -351,6 +393,12 @@ def _binding_function(t, name):
   if rec(t.tree, None) == 'TOP':
     return None
   return best
+
+
+def _union_leaves(e):
+  if isinstance(e, ast.BinOp) and isinstance(e.op, ast.BitOr):
+    return _union_leaves(e.left) + _union_leaves(e.right)
+  return [e]
 
 
 def _reserved_atoms(fi, e, at):
